@@ -710,6 +710,25 @@ func expectError(rt *rapid.T, desc string, res readResult, pt []byte) {
 	if res.stage == "read" && res.err == io.EOF {
 		rt.Fatalf("%s\nthe stream ended with a clean io.EOF at Read #%d after %d plaintext bytes; an error is required", desc, res.calls-1, len(res.out))
 	}
+	// A caller may keep calling Read after the error (a retry loop, a bufio.Reader): whatever the
+	// reader hands out then still has to extend a prefix of the plaintext - in particular nothing
+	// from behind the segment that failed. What the later calls return as error is not examined.
+	// (Added after seeded change C07g, where the state advanced past a segment that failed.)
+	if res.r != nil {
+		all := bytes.Clone(res.out)
+		for i := 0; i < 6; i++ {
+			p := make([]byte, []int{1, 7, 64, 4096, 70000, 33}[i])
+			n, _ := res.r.Read(p)
+			if n < 0 || n > len(p) {
+				rt.Fatalf("%s\nRead after the error returned n=%d for a buffer of %d bytes", desc, n, len(p))
+			}
+			all = append(all, p[:n]...)
+		}
+		evid.Add("reads_after_error", 6)
+		if !bytes.HasPrefix(pt, all) {
+			rt.Fatalf("%s\nafter the error (%v, %d plaintext bytes delivered before it) further Read calls handed out %d more bytes; all bytes together %s are not a prefix of the plaintext", desc, res.err, len(res.out), len(all)-len(res.out), fullHex(all))
+		}
+	}
 }
 
 func sameAAD(a, b []byte) bool { return bytes.Equal(a, b) }
